@@ -46,6 +46,7 @@ type Obs struct {
 	Leak      string      // bubble ended with blocked goroutines / deadlock message
 	Fatal     string      // harness-level failure (panic outside RoundTrip)
 	LogBytes  int         // bytes written to the debug logger
+	Deferred  string      // what a deferred (asynchronous) log handler resolved at the end of the scenario
 	Trace     []string    // controlled mode: the operations in the order they were let through
 	Alts      []int       // controlled mode: number of pending operations at each decision
 	EndNs     int64
@@ -109,6 +110,7 @@ type Call struct {
 	Kind        string // resp | err | hang
 	Status      int
 	RespHdr     http.Header // as sent (placeholders substituted)
+	Trailer     http.Header // trailer fields the origin sends after a chunked body (nil if none)
 	Body        []byte      // full intended body
 	FailAt      int
 	CtxDoneNs   int64 // virtual time at which the call saw ctx.Done (-1 if not)
@@ -154,21 +156,22 @@ func register() {
 }
 
 type World struct {
-	id      string
-	sc      *Scenario
-	obs     *Obs
-	t0      time.Time
-	seq     atomic.Int64
-	mu      sync.Mutex // protects obs.Calls, obs.Ops, serial, faults; never held while parked
-	serial  int
-	nops    int
-	inner   driver.Conn
-	dir     string
-	curEx   atomic.Int64 // exchange index in progress (-1 none)
-	faults  map[int]Fault
-	logbuf  *countWriter
-	exByKey map[any]int
-	reqObj  map[int]*http.Request // request objects by step (for SameObj)
+	id       string
+	sc       *Scenario
+	obs      *Obs
+	t0       time.Time
+	seq      atomic.Int64
+	mu       sync.Mutex // protects obs.Calls, obs.Ops, serial, faults; never held while parked
+	serial   int
+	nops     int
+	inner    driver.Conn
+	dir      string
+	curEx    atomic.Int64 // exchange index in progress (-1 none)
+	faults   map[int]Fault
+	logbuf   *countWriter
+	exByKey  map[any]int
+	reqObj   map[int]*http.Request // request objects by step (for SameObj)
+	deferred *deferredHandler
 
 	// controlled scheduling (C16 A)
 	controlled atomic.Bool
@@ -208,6 +211,67 @@ func (w *World) taskOf(g uint64, exIdx int) string {
 	}
 	w.gidTask[g] = t
 	return t
+}
+
+// deferredHandler is a slog handler of the asynchronous kind: Handle only queues the record;
+// its attributes (LogValuers included) are resolved when the queue is drained - here at the end
+// of the scenario, long after the round trips that logged them have returned.
+type deferredHandler struct {
+	mu    *sync.Mutex
+	recs  *[]slog.Record
+	attrs []slog.Attr
+}
+
+func (h *deferredHandler) Enabled(context.Context, slog.Level) bool { return true }
+func (h *deferredHandler) Handle(_ context.Context, r slog.Record) error {
+	c := r.Clone()
+	c.AddAttrs(h.attrs...)
+	h.mu.Lock()
+	*h.recs = append(*h.recs, c)
+	h.mu.Unlock()
+	return nil
+}
+func (h *deferredHandler) WithAttrs(a []slog.Attr) slog.Handler {
+	return &deferredHandler{mu: h.mu, recs: h.recs, attrs: append(append([]slog.Attr(nil), h.attrs...), a...)}
+}
+func (h *deferredHandler) WithGroup(string) slog.Handler { return h }
+
+func resolveValue(b *strings.Builder, v slog.Value) {
+	v = v.Resolve()
+	if v.Kind() == slog.KindGroup {
+		for _, a := range v.Group() {
+			b.WriteString(a.Key)
+			b.WriteByte('=')
+			resolveValue(b, a.Value)
+			b.WriteByte(' ')
+		}
+		return
+	}
+	fmt.Fprintf(b, "%v", v.Any())
+}
+
+// drainDeferred resolves every queued record (as the consumer of an asynchronous handler would).
+func (w *World) drainDeferred() string {
+	if w.deferred == nil {
+		return ""
+	}
+	var b strings.Builder
+	w.deferred.mu.Lock()
+	recs := append([]slog.Record(nil), *w.deferred.recs...)
+	w.deferred.mu.Unlock()
+	for _, r := range recs {
+		b.WriteString(r.Message)
+		b.WriteByte(' ')
+		r.Attrs(func(a slog.Attr) bool {
+			b.WriteString(a.Key)
+			b.WriteByte('=')
+			resolveValue(&b, a.Value)
+			b.WriteByte(' ')
+			return true
+		})
+		b.WriteByte('\n')
+	}
+	return b.String()
 }
 
 type countWriter struct {
@@ -672,6 +736,12 @@ func (o *origin) RoundTrip(req *http.Request) (*http.Response, error) {
 	}
 	call.Body = body
 	call.Status = status
+	if rp.Shape == "chunked" && len(rp.Trailer) > 0 && body != nil {
+		call.Trailer = http.Header{}
+		for _, kv := range rp.Trailer {
+			call.Trailer.Add(kv[0], subst(kv[1], serial, w.now()))
+		}
+	}
 	reason := rp.Reason
 	if reason == "" {
 		reason = http.StatusText(status)
@@ -694,6 +764,12 @@ func (o *origin) RoundTrip(req *http.Request) (*http.Response, error) {
 		Proto:      "HTTP/1.1", ProtoMajor: 1, ProtoMinor: 1,
 		Header:  hdr,
 		Request: req,
+	}
+	if rp.RespReqWithout != "" {
+		r2 := req.Clone(req.Context())
+		r2.Header.Del(rp.RespReqWithout)
+		r2.Header.Set("X-Forwarded-By", "middleware")
+		resp.Request = r2
 	}
 	fail := -1
 	if rp.Body.FailAt > 0 {
@@ -941,6 +1017,11 @@ func (w *World) newTransport() (rt http.RoundTripper, err error) {
 	}
 	switch w.sc.Logger {
 	case "":
+	case "deferred":
+		if w.deferred == nil {
+			w.deferred = &deferredHandler{mu: &sync.Mutex{}, recs: &[]slog.Record{}}
+		}
+		opts = append(opts, httpcache.WithLogger(slog.New(w.deferred)))
 	case "text":
 		opts = append(opts, httpcache.WithLogger(slog.New(slog.NewTextHandler(w.logbuf, &slog.HandlerOptions{Level: slog.LevelDebug, AddSource: true}))))
 	default:
@@ -1141,6 +1222,14 @@ func (w *World) run() {
 			ex.ReqDiffBg = diffReq(ex.reqSnap, ex.req)
 		}
 	}
+	func() {
+		defer func() {
+			if r := recover(); r != nil {
+				obs.Deferred = fmt.Sprintf("PANIC while resolving deferred log records: %v", r)
+			}
+		}()
+		obs.Deferred = w.drainDeferred()
+	}()
 	obs.EndNs = w.now()
 	for _, c := range cancels {
 		c()
